@@ -96,6 +96,14 @@ def gen_cases(tier):
         for g2 in few:
             add(("core", True, ("+", g1, g2)))
             add(("core", True, ("-", ("+", g1, g2), g1)))
+    # one group term reached through two spellings of an interaction
+    gh, hg = (":", ("a", "g"), ("a", "h")), (":", ("a", "h"), ("a", "g"))
+    xz, zx = (":", ("a", "x"), ("a", "a")), (":", ("a", "a"), ("a", "x"))
+    for e1 in (("a", "x"), xz, ("+", ("lit", "0"), ("a", "x"))):
+        for e2 in (("a", "a"), zx, ("*", ("a", "x"), ("a", "a"))):
+            for f1, f2 in ((gh, hg), (gh, gh), (("a", "g"), ("a", "g"))):
+                add(("core", True, ("+", ("|", e1, f1), ("|", e2, f2))))
+                add(("core", True, ("-", ("+", ("|", e1, f1), ("|", e2, f2)), ("|", e2, f1))))
     # non-leading / repeated literals on the effect side, other operations on group terms: reject or agree
     for g in G[:3]:
         for e in E:
